@@ -38,7 +38,7 @@ def one(seed_dir):
         if r.returncode:
             res.update(status="machinery", detail=r.stdout[-400:])
             return res
-        r = sh("git", "-C", w, "apply", os.path.join(seed_dir, "patch.diff"))
+        r = sh("git", "-C", w, "apply", "--3way", os.path.join(seed_dir, "patch.diff"))
         if r.returncode:
             res.update(status="patch-does-not-apply", detail=r.stdout[-400:])
             return res
@@ -87,7 +87,7 @@ def main():
             os.rmdir(w)
             try:
                 sh("git", "-C", "/repo", "worktree", "add", "-f", w, "HEAD")
-                r = sh("git", "-C", w, "apply", os.path.join(ROOT, "refactors", name))
+                r = sh("git", "-C", w, "apply", "--3way", os.path.join(ROOT, "refactors", name))
                 if r.returncode:
                     neg.append(dict(refactor=name, status="patch-does-not-apply"))
                     continue
